@@ -189,6 +189,10 @@ def run(tier, seed, t0):
                 if role == 'uimm' or kind == 'bit':
                     ops[pos] = int(v)
                 cases.append(dict(mn=mn, ops=ops, pos=pos, line=mn + ' ' + ', '.join(toks)))
+                if role == 'imm' and isinstance(v, int) and pos == len(sig) - 1:
+                    # the same immediate written as an arithmetic expression of several tokens (documented: immediates are integer arithmetic)
+                    expr = ('%d + 0' % v, '0 + %d' % v if v >= 0 else '0 - %d' % -v, '%d * 1' % v)[i % 3]
+                    cases.append(dict(mn=mn, ops=ops, pos=pos, line=mn + ' ' + ', '.join(toks[:-1] + [expr]), expr=True))
         ttasks.extend(kernel.chunks(cases, 400))
     m = kernel.explore(enc_task, etasks)
     m = kernel.explore(text_task, ttasks, merged=m)
